@@ -107,7 +107,7 @@ def text_mismatch_kind(written, parsed):
 # =================================================================================================
 ALPHA = ['a', '<', '>', '&', "'", '"', ' ', '\t', '\n', '\r', '\x00', '\x01', '\x0b', '\x1f', '\x7f', '\x85', '\xe9',
          '\u2028', '\ufffd', '\ufffe', '\uffff', '\U0001F600']
-EXTRA = [']]>', '--']
+EXTRA = [']]>', '--', '---', '----', 'a---b', '-', '-a-']
 REPS = ['a', '&', '"', '\n', '\x00', '\xe9']
 NAMES = ['a', 'b:c']
 XHTML_ROOT_ATTRS = {'xmlns': 'http://www.w3.org/1999/xhtml', 'xml:lang': 'en', 'lang': 'en'}
@@ -468,7 +468,7 @@ RP_SLOTS = {   # slot -> (element, attribute) of the XML index that carries it
 }
 
 
-def build_awkward_rp66(slot, s, layout='one', n=3, xs=None, xcode=7):
+def build_awkward_rp66(slot, s, layout='one', n=3, xs=None, xcode=7, highbytes=False):
     """xs: explicit X values (exactly representable in the X channel's code) instead of c04's value model."""
     import struct
     from models import rp66_ref as R
@@ -506,6 +506,12 @@ def build_awkward_rp66(slot, s, layout='one', n=3, xs=None, xcode=7):
     # a set of a private logical record type (>= 128): indexed like any other table
     vset = {'role': 'RDSET', 'type': b'440-CUSTOM', 'name': b'prv', 'lrtype': 200,
             'template': [{'label': b'NOTE', 'code': 20}], 'objects': [{'name': (1, 0, b'V1'), 'comps': [{'values': [b'vendor note']}]}]}
+    if highbytes:
+        # text values with bytes >= 0x80 (no encoding is defined for them): whatever the index does with them, different
+        # values must stay different - the first is valid UTF-8, the second its Latin-1 look-alike
+        nset['template'].append({'label': b'OWNER', 'code': 20})
+        nset['objects'][0]['comps'].append({'count': 2, 'values': [b'Soci\xc3\xa9t\xc3\xa9 X', b'Soci\xe9t\xe9 X']})
+        nset['objects'][1]['comps'].append({'count': 2, 'values': [b'\xc2\xb0C', b'\xb0C']})
     sets = [c03.FILE_HEADER, c03.ORIGIN, cset, fset, pset, nset, vset]
     recs = [{'eflr': True, 'type': c03.lrtype_for(x), 'payload': c03.encode_set(x)} for x in sets]
     t = {'channels': chans}
@@ -535,7 +541,7 @@ def memory_snapshot(li):
         ent = {'eflr_pos': [], 'set_types': [], 'has_log_pass': bool(lf.has_log_pass), 'fas': [], 'numbers': []}
         for pos, eflr in lf.eflrs:
             ent['numbers'].append([[[(('float' if isinstance(v, float) else 'int'), v) if isinstance(v, (int, float)) and not isinstance(v, bool)
-                                      else None for v in (a.value or [])] if a is not None else None for a in obj.attrs] for obj in eflr.objects])
+                                      else (('bytes', v) if isinstance(v, bytes) else None) for v in (a.value or [])] if a is not None else None for a in obj.attrs] for obj in eflr.objects])
             ent['eflr_pos'].append(pos.lrsh_position)
             ent['set_types'].append(eflr.set.type)
             by.add(eflr.set.type)
@@ -648,6 +654,7 @@ def numbers_check(k, eflrs, numbers):
     """Every number held by an object attribute of the in-memory index is found in the document as a <Value> whose declared
     type and text read back as that very number (an integer stays an integer, a float a float, minus zero minus zero)."""
     import math
+    seen_text = {}
     for e, objs in zip(eflrs, numbers):
         obj_els = e.elements('Object')
         if len(obj_els) != len(objs):
@@ -668,6 +675,14 @@ def numbers_check(k, eflrs, numbers):
                     if kv is None:
                         continue
                     kind, v = kv
+                    if kind == 'bytes':
+                        # no particular spelling is demanded of a byte string, but two different ones must not be written alike
+                        text = (ve.attrs.get('type'), ve.attrs.get('value'))
+                        other = seen_text.setdefault(text, v)
+                        if other != v:
+                            return [({'kind': 'index_values_confused'},
+                                     'logical file %d: the byte strings %r and %r are both written as type=%r value=%r' % (k, other, v, text[0], text[1]))]
+                        continue
                     typ, text = ve.attrs.get('type'), ve.attrs.get('value')
                     try:
                         back = int(text) if typ == 'int' else float(text) if typ == 'float' else None
@@ -826,6 +841,7 @@ def gen_B(tier):
     for n0, n1 in ((2, 0), (0, 2)):        # a frame type without frames beside one with frames
         yield {'part': 'B', 'src': 'c04', 'lp': {'types': [{'name': 'FT0', 'channels': t0, 'n': n0}, {'name': 'FT1', 'channels': t1, 'n': n1}],
                                                   'order': None, 'empty_at': None, 'layout': 'one'}}
+    yield {'part': 'B', 'src': 'high'}
     f32 = lambda v: struct.unpack('>f', struct.pack('>f', v))[0]   # noqa
     for code, xs in [(7, [1000.0, 1000.5, 1001.0, 1001.5]), (7, [0.25, 13.25, 1e300, 39.25, 52.25]),
                      (2, [0.5, 13.5, 3.4028234663852886e38, 39.5, 52.5]), (7, [k / 10 for k in range(1, 8)]),
@@ -862,6 +878,9 @@ def run_case_B(case):
                         item['name'] = bytes(c if c < 0x80 else 0x6F for c in item['name'])
         data, exp = c03.build(files, case['layout'])
         return check_rp66_index(data, {'tables': [len(t) for t in exp], 'types': [], 'frames': []})
+    if case['src'] == 'high':
+        data, expect = build_awkward_rp66(None, b'', 'one', highbytes=True)
+        return check_rp66_index(data, expect)
     if case['src'] == 'xs':
         data, expect = build_awkward_rp66(None, b'', 'one', xs=case['xs'], xcode=case['code'])
         return check_rp66_index(data, expect)
